@@ -97,5 +97,26 @@ def comp : Op
           .bool C.timeOrder.isSome]
   | _ => none
 
-def ops : List (String × Op) := [("C12.filter", filter), ("C12.comp", comp)]
+/-- `C12.sort_shared <filt> <sibling kind> <sibling K> <order> <sim>` : filter and sibling refer to the SAME
+    measurement array; the filter is sorted → sibling's score before / after, sorted filter's score on
+    `sim[..., order]` -/
+def sortShared : Op
+  | [fv, .str sk, .int sK, ordV, simV] => do
+    let F0 ← parseFilt fv
+    let kind ← kindOf sk sK.toNat
+    let ord ← ordV.nats?
+    let (n, y) ← parseSim simV
+    let st : ObsStore Float := [F0.obs]
+    let F : FiltRef := ⟨F0.kind, F0.m, F0.R, F0.T, 0⟩
+    let H : FiltRef := ⟨kind, F0.m, F0.R, F0.T, 0⟩
+    let ll (g : Option (Filt Float)) (z : Nat → Nat → Nat → Float) : Val := match g with
+      | some g => llVal (g.ll n z)
+      | none => errVal "indexError"
+    match sortTimesRef st F ord with
+    | .error e => some [errVal (errName e)]
+    | .ok (st', F') =>
+      some [ll (H.deref st) y, ll (H.deref st') y, ll (F'.deref st') (fun s r j => y s r (ord.getD j 0))]
+  | _ => none
+
+def ops : List (String × Op) := [("C12.filter", filter), ("C12.comp", comp), ("C12.sort_shared", sortShared)]
 end ChiDriver.C12
